@@ -221,7 +221,7 @@ theorem noop_calls_return_self (st : Store) (fuel : Nat) (op : UOp) (t : Rel) (h
 theorem sql_apply_wellformed (σ : Leaves) (st : Store) (fuel : Nat) (op : UOp) (t : Rel) (res : Res)
     (hwf : t.WF) (htr : t.Truthful σ) (hraw : t.RawSql) (h : applyOp st fuel (.u op) t {} = .ok res) :
     (res.get t).WF ∧ (res.get t).engine = t.engine :=
-  let F := ((treeBuild_sound σ st fuel).apply op t res (raw_good σ t hwf htr hraw) h).2
+  let F := ((treeBuild_sound σ st fuel).apply op t res (raw_good σ t hwf htr hraw) h).2.1
   ⟨F.wf, F.engine⟩
 
 theorem sql_conform_wellformed (σ : Leaves) (st : Store) (fuel : Nat) (t : Rel) (res : Res)
